@@ -38,6 +38,7 @@ BASES = {
 }
 FORMATS = ["list", "dict-tuples", "dict-monomials", "sympy-symbols", "nested-blocks", "scalar-series", "block-series"]
 VTYPES = ["dense", "csr", "coo", "csc", "sympy"]
+VTYPES_EXTRA = ["c64", "fortran", "readonly", "strided", "dia", "lil", "bsr", "csr_matrix", "coo_unsorted_dup", "immutable"]
 DESIG = ["indices", "eigvec-dense", "eigvec-sparse"]
 
 
@@ -70,6 +71,14 @@ def cases(tier, seed):
                         if dg == "eigvec-sparse" and vt == "sympy":
                             continue
                         out.append(dict(kind="format", base=b, k=k, fmt=fmt, vtype=vt, desig=dg, seed=seed))
+        # further value containers: reduced precision, memory layout, read-only buffers, other sparse formats,
+        # legacy matrix classes, immutable sympy matrices
+        for vt in VTYPES_EXTRA:
+            for fmt in ("list", "dict-tuples", "scalar-series", "nested-blocks"):
+                for dg in ("indices", "eigvec-dense"):
+                    if fmt == "nested-blocks" and dg != "indices":
+                        continue
+                    out.append(dict(kind="format", base=b, k=1, fmt=fmt, vtype=vt, desig=dg, seed=seed))
         # three first-order parameters (the list format files one perturbation per parameter)
         for fmt in ("list", "dict-tuples", "dict-monomials", "scalar-series"):
             for vt in ("dense", "csr"):
@@ -117,6 +126,32 @@ def conv_value(m, vt, N=None):
         return sparse.coo_array(np.array(m, dtype=complex))
     if vt == "csc":
         return sparse.csc_array(np.array(m, dtype=complex))
+    if vt == "c64":
+        return np.array(m, dtype=np.complex64)
+    if vt == "fortran":
+        return np.asfortranarray(np.array(m, dtype=complex))
+    if vt == "readonly":
+        a = np.array(m, dtype=complex)
+        a.flags.writeable = False
+        return a
+    if vt == "strided":  # a non-contiguous view into a larger buffer
+        a = np.array(m, dtype=complex)
+        big = np.full((2 * a.shape[0], 2 * a.shape[1]), 99.0 + 0j)
+        big[::2, ::2] = a
+        return big[::2, ::2]
+    if vt in ("dia", "lil", "bsr"):
+        return getattr(sparse, vt + "_array")(np.array(m, dtype=complex))
+    if vt == "csr_matrix":
+        return sparse.csr_matrix(np.array(m, dtype=complex))
+    if vt == "coo_unsorted_dup":  # unsorted coordinates with duplicate entries that sum to the value
+        a = np.array(m, dtype=complex)
+        r, c = np.nonzero(a)
+        order = np.argsort(-(r * 7 + c * 3) % 11, kind="stable")
+        r, c = r[order], c[order]
+        v = a[r, c]
+        return sparse.coo_array((np.concatenate([v / 2, v / 2]), (np.concatenate([r, r]), np.concatenate([c, c]))), shape=a.shape)
+    if vt == "immutable":
+        return sympy.ImmutableMatrix(conv_value(m, "sympy"))
     if vt == "sympy":
         m = np.array(m)
 
@@ -169,7 +204,7 @@ class StripSeries:
         return v
 
 
-def compare(got, want, exact_got, label, V):
+def compare(got, want, exact_got, label, V, rtol=1e-9):
     for name in want:
         for n in want[name]:
             a, b = got[name][n], want[name][n]
@@ -180,7 +215,7 @@ def compare(got, want, exact_got, label, V):
                 ok = d <= 1e-9 * max(1.0, b.maxabs())
             else:
                 d = np.abs(a.tonp() - b.tonp()).max()
-                ok = np.isfinite(a.tonp()).all() and d <= 1e-9 * max(1.0, b.maxabs())
+                ok = np.isfinite(a.tonp()).all() and d <= rtol * max(1.0, b.maxabs())
             if not ok:
                 V.append(f"{label}: {name}[{list(n)}] differs from the canonical run (by {d:.2e})")
                 return
@@ -264,7 +299,7 @@ def run_format(case):
                                      subspace_indices=block_of(cfg["sizes"]), hermitian=herm, atol=1e-6)
         can = collect(ref_outs, cfg, k, total, False)
     strip = None
-    exact = vt == "sympy"
+    exact = vt in ("sympy", "immutable")
     syms = sympy.symbols("x y z", real=True)[:k]
     if fmt == "list":
         Hin = [cv(h0)] + [cv(values[o]) for o in sorted(values, reverse=True)]
@@ -322,13 +357,19 @@ def run_format(case):
         kwargs.update(designation(cfg, dg, vt))
     if len(cfg["sizes"]) == 1 and dg == "indices" and fmt not in ("nested-blocks", "block-series") and case["seed"] % 2 == 0:
         kwargs.pop("subspace_indices")  # single block: no designation at all
+    # the caller's arrays must come back unchanged
+    held = [(lbl, v, v.copy()) for lbl, v in (list(enumerate(Hin)) if isinstance(Hin, list) else list(Hin.items()) if isinstance(Hin, dict) else [])
+            if isinstance(v, np.ndarray)]
     outs = block_diagonalize(Hin, **kwargs)
     got = collect(outs, cfg, k, total, exact, strip)
     V = []
+    for lbl, v, snap in held:
+        if v.dtype != snap.dtype or not np.array_equal(v, snap):
+            V.append(f"format {fmt}/{vt}/{dg}: the input array {lbl} was modified")
     if tiny:
         got = {name: {n: m.scale((1 / tiny) ** sum(n)) for n, m in d.items()} for name, d in got.items()}
         can = {name: {n: m.scale((1 / tiny) ** sum(n)) for n, m in d.items()} for name, d in can.items()}
-    compare(got, can, exact, f"format {fmt}/{vt}/{dg}" + ("/tiny" if tiny else ""), V)
+    compare(got, can, exact, f"format {fmt}/{vt}/{dg}" + ("/tiny" if tiny else ""), V, rtol=1e-4 if vt == "c64" else 1e-9)
     return V, nontrivial_of(can)
 
 
